@@ -39,10 +39,10 @@ def probe(M, name):
         return M.EXPECTED[name]
     return eval(CALLS[name], {'M': M, 'obs_func': obs_func})
 '''
-LEVELS = ['default', 'option', 'header', 'decorator', 'with']
+LEVELS = ['default', 'option', 'header', 'decorator', 'stacked-decorator', 'with']
 NEEDED_PAIRS = ['default>option', 'default>header', 'default>decorator', 'default>with', 'option>header', 'option>decorator',
                 'option>with', 'header>decorator', 'header>with', 'decorator>with', 'with>with', 'decorator>decorator',
-                'with>decorator']
+                'with>decorator', 'decorator>stacked-decorator']
 
 
 def classify(pr, exp, got):
@@ -52,7 +52,12 @@ def classify(pr, exp, got):
             if a != b:
                 pt = pr['points'][i]
                 lv = pt['levels']
-                return 'scope:%s:%s-over-%s:%s' % (pt['directive'], lv[-1], lv[-2] if len(lv) > 1 else 'none', pt['position']), i
+                d = pt['directive']
+                if pt.get('kind') == 'bounds_neg' and not pt['env']['wraparound'] and b != G.BIG[5]:
+                    # v[-1] with wraparound off as expected, yet a different outcome: the boundscheck setting is the one that
+                    # was resolved differently - name that directive and its level chain in the key
+                    d, lv = 'boundscheck', pt['levels_by_directive']['boundscheck']
+                return 'scope:%s:%s-over-%s:%s' % (d, lv[-1], lv[-2] if len(lv) > 1 else 'none', pt['position']), i
     pt = pr['points'][0]
     lv = pt['levels']
     return 'scope:%s:%s-over-%s:%s' % (pt['directive'], lv[-1], lv[-2] if len(lv) > 1 else 'none', pt['position']), 0
